@@ -890,6 +890,39 @@ pub fn run(prop: Prop, tier: Tier) -> i32 {
     rep.absorb(acc2);
     let new2 = results2.iter().filter(|v| !v0set.contains(*v) && !results1.contains(*v)).count();
 
+    // round 3 (thorough): values first reached in round 2
+    let mut apps3_len = 0usize;
+    let mut new3 = 0usize;
+    if thorough {
+        let frontier3: Vec<RV> = results2.iter().filter(|v| !v0set.contains(*v) && !results1.contains(*v)).cloned().collect();
+        let cap3 = 300_000usize;
+        let full3 = frontier3.len();
+        let frontier3: Vec<RV> = frontier3.into_iter().take(cap3).collect();
+        if full3 > frontier3.len() {
+            rep.exhaustive = false;
+            rep.note(format!("round-3 frontier capped: {} of {} reached values used", frontier3.len(), full3));
+        }
+        let core3 = pool::core(8);
+        let mut apps3 = Vec::new();
+        for x in &frontier3 {
+            for op in ALL_UNOPS {
+                apps3.push(App::Un(op, x.clone()));
+            }
+            for op in ALL_BINOPS {
+                for c in &core3 {
+                    apps3.push(App::Bin(op, x.clone(), c.clone()));
+                    apps3.push(App::Bin(op, c.clone(), x.clone()));
+                }
+                apps3.push(App::Bin(op, x.clone(), x.clone()));
+            }
+        }
+        apps3_len = apps3.len();
+        let (acc3r, results3) = par_run(prop, &apps3, &lit_core, false, true);
+        rep.absorb(acc3r);
+        new3 = results3.iter().filter(|v| !v0set.contains(*v) && !results1.contains(*v) && !results2.contains(*v)).count();
+        rep.bound("round3_core", core3.len());
+    }
+
     // mid-range sweep (round 1b)
     let sweep = sweep_apps();
     let (acc_s, _) = par_run(prop, &sweep, &lit_core, false, true);
@@ -907,16 +940,20 @@ pub fn run(prop: Prop, tier: Tier) -> i32 {
     input_shapes(prop, &mut acc3);
     rep.absorb(acc3);
 
-    rep.states = (v0.len() + frontier_full + new2) as u64;
+    rep.states = (v0.len() + frontier_full + new2 + new3) as u64;
+    if thorough {
+        rep.bound("round3_applications", apps3_len);
+        rep.bound("round3_new_values", new3);
+    }
     rep.transitions = rep.acc.get("transitions") + rep.acc.get("composite_trees");
     rep.traces = rep.acc.get("executions");
     rep.bound("round1_applications", n_apps1);
     rep.bound("round2_applications", apps2.len());
     rep.bound("round1_new_values", frontier_full);
     rep.bound("round2_new_values", new2);
-    rep.rule = "E2 value-space BFS: every node kind applied to every operand tuple over the boundary pool V0 (round 1, forms: built/ruleset/parsed-with-references/same-reference/parsed-with-literals) and to every value reached in round 1 paired with a core pool (round 2); each execution runs the real evaluator and the reference side by side; states = distinct operand values, transitions = distinct applications".into();
+    rep.rule = "E2 value-space BFS: every node kind applied to every operand tuple over the boundary pool V0 (round 1, forms: built/ruleset/parsed-with-references/same-reference/parsed-with-literals) and to every value reached in round 1 paired with a core pool (round 2; thorough: a third round over the values first reached in round 2); each execution runs the real evaluator and the reference side by side; states = distinct operand values, transitions = distinct applications".into();
     rep.assume("reference trusted base: Rust integer/IEEE primitives, rust_decimal checked arithmetic and conversions, f64::from_str, chrono's RFC 3339 parser and range constants, std Unicode case mapping");
-    rep.assume("operand values outside V0 and the values reached from it in one step are not explored");
+    rep.assume("operand values outside V0 and the values reached from it in one step (thorough: two steps) are not explored");
     rep.finish()
 }
 
